@@ -32,7 +32,7 @@ func (e *Engine) newExec(q string, c *Contract) *Exec {
 	x := &Exec{eng: e, b: NewBank(), mode: c.Mode, qual: q, contract: c,
 		leafCache: map[string][]leaf{}, leafByType: map[types.Type][]leaf{}, abstracted: map[string]int{}, strLits: map[string]*Term{},
 		nameCount: map[string]int{}, usedContracts: map[string]bool{}, usedTrusted: map[string]bool{},
-		addrTaken: map[types.Object]*Term{}, initKeys: map[string]bool{}, anchorHits: map[string]int{}, loopTextHits: map[string]int{}}
+		initKeys: map[string]bool{}, anchorHits: map[string]int{}, loopTextHits: map[string]int{}}
 	return x
 }
 
@@ -183,7 +183,7 @@ func (e *Engine) bodyHash(fd *ast.FuncDecl) string {
 }
 
 func (x *Exec) initState() *State {
-	return &State{env: map[types.Object]*Value{}, names: map[string]*Value{}, heap: map[string]*Term{}, globals: map[string]*Value{}, alloc: x.b.Var("alloc0", IntSort)}
+	return &State{env: map[types.Object]*Value{}, names: map[string]*Value{}, heap: map[string]*Term{}, globals: map[string]*Value{}, alloc: x.b.Var("alloc0", IntSort), addr: map[types.Object]*Term{}}
 }
 
 func (x *Exec) runFunc(fd *ast.FuncDecl, c *Contract, sc splitCase, first bool) {
